@@ -42,8 +42,8 @@ type connectFuture struct {
 
 func (f *connectFuture) SessionPresent() bool {
 	// get result
-	connack := f.Result().(*packet.Connack)
-	if connack == nil {
+	connack, ok := f.Result().(*packet.Connack)
+	if !ok || connack == nil {
 		return false
 	}
 
@@ -52,8 +52,8 @@ func (f *connectFuture) SessionPresent() bool {
 
 func (f *connectFuture) ReturnCode() packet.ConnackCode {
 	// get result
-	connack := f.Result().(*packet.Connack)
-	if connack == nil {
+	connack, ok := f.Result().(*packet.Connack)
+	if !ok || connack == nil {
 		return 0
 	}
 
@@ -66,8 +66,8 @@ type subscribeFuture struct {
 
 func (f *subscribeFuture) ReturnCodes() []packet.QOS {
 	// get result
-	suback := f.Result().(*packet.Suback)
-	if suback == nil {
+	suback, ok := f.Result().(*packet.Suback)
+	if !ok || suback == nil {
 		return nil
 	}
 
